@@ -197,10 +197,15 @@ def eas_run(N, which):
             def __init__(self, alt):
                 pass
 
-            def __call__(self, beta, alt, E, lat, lon, cloudf=None):
-                n = len(beta)
-                d = SymArray([core._opaque("rho", beta[i], alt[i], E[i], lat[i], lon[i]) for i in range(n)], "float")
-                t = SymArray([core._opaque("thetaCh", beta[i], alt[i], E[i], lat[i], lon[i]) for i in range(n)], "float")
+            def __call__(self, *cols, **kw):
+                # whatever per-event columns the stage hands over (five on the pinned tree: beta, altitude, energy, latitude,
+                # longitude, plus the cloud model): zipped like the real kernel does (a longer column is silently truncated);
+                # each event's result is an uninterpreted function of the values in ITS row
+                arrs = [c for c in list(cols) + list(kw.values()) if isinstance(c, (SymArray, _np.ndarray, list, tuple))]
+                n = min(len(a) for a in arrs)
+                k = len(arrs)
+                d = SymArray([core._opaque(f"rho{k}", *[a[i] for a in arrs]) for i in range(n)], "float")
+                t = SymArray([core._opaque(f"thetaCh{k}", *[a[i] for a in arrs]) for i in range(n)], "float")
                 return d, t
 
         ens["CphotAng"] = Cphot
@@ -212,11 +217,19 @@ def eas_run(N, which):
             beta = SymArray([core.free_angle(f"beta{i}") for i in range(N)])
             tb, tl, u = (symarr([f"{n}{i}" for i in range(N)]) for n in ("tauBeta", "tauLorentz", "u"))
             for i in range(N):
-                C.assume(z3.Real(f"u{i}") > 0, z3.Real(f"u{i}") <= 1, z3.Real(f"tauBeta{i}") > 0, z3.Real(f"tauLorentz{i}") >= 1, z3.Real(f"beta{i}") >= 0, z3.Real(f"beta{i}") <= PI / 2)
+                # (u == 0 is a legal draw of uniform [0, 1): the decay length is then infinite)
+                C.assume(z3.Real(f"u{i}") >= 0, z3.Real(f"u{i}") <= 1, z3.Real(f"tauBeta{i}") > 0, z3.Real(f"tauLorentz{i}") >= 1, z3.Real(f"beta{i}") >= 0, z3.Real(f"beta{i}") <= PI / 2)
             claims = order_claims(C, "EAS.altDec", lambda c: eas.altDec(c["beta"], c["tauBeta"], c["tauLorentz"], c["u"]), {"beta": beta, "tauBeta": tb, "tauLorentz": tl, "u": u}, N)
         else:
             cols = {n: symarr([f"{n}{i}" for i in range(N)]) for n in ("beta", "altDec", "E", "lat", "lon")}
-            claims = order_claims(C, "EAS.__call__", lambda c: eas(c["beta"], c["altDec"], c["E"], c["lat"], c["lon"], cloudf=None), cols, N)
+
+            def cloudf(lat, lon):  # a location-dependent cloud model: one uninterpreted value per (latitude, longitude)
+                if isinstance(lat, SymArray) or isinstance(lon, SymArray):
+                    la, lo = SymArray(lat) if not isinstance(lat, SymArray) else lat, SymArray(lon) if not isinstance(lon, SymArray) else lon
+                    return SymArray([core._opaque("cloudtop", la[i], lo[i]) for i in range(len(la))], "float")
+                return core._opaque("cloudtop", lat, lon)
+
+            claims = order_claims(C, "EAS.__call__", lambda c: eas(c["beta"], c["altDec"], c["E"], c["lat"], c["lon"], cloudf=cloudf), cols, N)
         return harness.Out(claims=claims, skip_defd=lambda t, w: "definedness is C07/C08's obligation")
 
     return run
@@ -364,6 +377,84 @@ def tooframes_run(N):
     return run
 
 
+_KERNEL_HELPERS = ("theta_view", "theta_prop", "e0", "cherenkov_threshold_angle", "tracklen", "d_to_det", "cher_ang_sig_i", "cherenkov_area", "aerosol_model")
+
+
+def _helper_args(helper, K, sfx):
+    """symbolic arguments of one call of a CphotAng helper (K shower segments); names carry the call's suffix"""
+
+    def arr(n, k=K):
+        return symarr([f"{n}{sfx}{i}" for i in range(k)])
+
+    def sc(n):
+        return SV(t=z3.Real(n + sfx))
+
+    zs = arr("z")
+    table = {
+        "theta_view": lambda: (sc("betaE"),),
+        "theta_prop": lambda: (zs.copy(), sc("sinThetView")),
+        "valid_arrays": lambda: (zs.copy(), arr("delgram"), arr("gramsum"), arr("gramz"), arr("ZonZ"), arr("ThetPrpA"), sc("Eshow")),
+        "e0": lambda: ((K,), arr("s")),
+        "cherenkov_threshold_angle": lambda: (arr("AirN"),),
+        "tracklen": lambda: (arr("E0"), arr("eCthres"), arr("s")),
+        "d_to_det": lambda: (sc("ThetView"), arr("ThetPrpA"), zs.copy()),
+        "cher_ang_sig_i": lambda: (arr("taphotstep"), sc("taphotsum"), arr("thetaC"), sc("AveCangI")),
+        "cherenkov_area": lambda: (sc("AveCangI"), arr("DistStep"), 0),
+        "aerosol_model": lambda: (zs.copy(), arr("ThetPrpA")),
+    }
+    return zs, table[helper]
+
+
+def _flat_sv(x):
+    if isinstance(x, tuple):
+        return [e for y in x for e in _flat_sv(y)]
+    if isinstance(x, SymArray):
+        return [SV.of(e) for e in x.a.reshape(-1)]
+    if isinstance(x, _np.ndarray):
+        return [SV.of(e) for e in x.reshape(-1)]
+    return [SV.of(x)]
+
+
+def kernel_history_run(helper, K):
+    """The shower kernel is handed to the scheduler as one object that evaluates many showers: a helper must read only
+    constants from self.  The REAL helper body (numeric primitives uninterpreted) is called on one object for a shower
+    of K+1 segments and then for a shower of K segments; the second result must be what a freshly constructed object
+    returns for that shower (same shape, same terms), on every path, and the object's attributes are not rebound."""
+    from props import cphot_model as cm
+
+    def run(C):
+        C.opaque_math = True
+        _sp, _dg, cp = cm.load_cphot()
+        Cls = cp["CphotAng"]
+        alt = SV.of(_np.float32(525.0))
+        used, fresh = Cls(alt), Cls(alt)
+        attrs0 = {k: id(v) for k, v in vars(used).items()}
+        za, args_a = _helper_args(helper, K + 1, "a")
+        zb, args_b = _helper_args(helper, K, "b")
+        for zz in (za, zb):
+            for e in zz.a:
+                C.assume(e.t >= 0, e.t <= 65)
+        for n_ in ("Eshowa", "Eshowb"):
+            C.assume(z3.Real(n_) > 1)
+        getattr(used, helper)(*args_a())
+        r2 = _flat_sv(getattr(used, helper)(*args_b()))
+        r3 = _flat_sv(getattr(fresh, helper)(*args_b()))
+        attrs1 = {k: id(v) for k, v in vars(used).items()}
+        same = len(r2) == len(r3)
+        claims = {f"CphotAng.{helper}: second shower on a used object has the result shape of a fresh object": z3.BoolVal(same),
+                  f"CphotAng.{helper}: the call leaves the object's attributes as they were (no attribute added or rebound)": z3.BoolVal(attrs0 == attrs1)}
+        if same:
+            claims[f"CphotAng.{helper}: second shower on a used object == the same shower on a fresh object"] = z3.And([a.term() == b.term() for a, b in zip(r2, r3)]) if r2 else z3.BoolVal(True)
+        inputs = {f"z{s_}{i}": z3.Real(f"z{s_}{i}") for s_, k_ in (("a", K + 1), ("b", K)) for i in range(k_)}
+        return harness.Out(claims=claims, inputs=inputs, skip_defd=lambda tag, where: "numeric domain of the photon-yield helpers is C06 (not applicable); only independence of earlier calls is claimed here")
+
+    return run
+
+
+def job_kernel_history(helper, K, tier):
+    return harness.run_job(f"CphotAng.{helper}: history (K={K})", kernel_history_run(helper, K), timeout_ms=30000, twin=False)
+
+
 def job_tooframes(N, tier):
     return _job(f"ToOEvent frames (N={N}, astropy modelled)", tooframes_run(N), tier)
 
@@ -405,7 +496,36 @@ def jobs(tier, seed):
            ("texit", "job_taus", {"N": 2, "which": "exit", "tier": tier}), ("tenergy", "job_taus", {"N": 2, "which": "energy", "tier": tier}),
            ("altdec", "job_eas", {"N": 3, "which": "altDec", "tier": tier}), ("eas", "job_eas", {"N": 3, "which": "call", "tier": tier}),
            ("snr", "job_snr", {"N": 3, "tier": tier}), ("too", "job_too", {"N": 3, "tier": tier}), ("tooframes", "job_tooframes", {"N": 3, "tier": tier})]
+    out += [(f"khist_{h}", "job_kernel_history", {"helper": h, "K": (1 if h == "valid_arrays" else 2) if tier == "quick" else (2 if h == "valid_arrays" else 3), "tier": tier}) for h in _KERNEL_HELPERS]
     return out
+
+
+def _replay_kernel_history(helper, m):
+    """the real float32 helper on a used and on a fresh object (for aerosol_model: altitudes from the model)"""
+    import warnings
+
+    import numpy as np
+
+    from nuspacesim.simulation.eas_optical.cphotang import CphotAng
+
+    if helper != "aerosol_model":
+        return {"reproduced": False, "key": None, "detail": "no concrete replay for this helper"}
+    with warnings.catch_warnings():
+        warnings.simplefilter("ignore")
+        used, fresh = CphotAng(525.0), CphotAng(525.0)
+        na = len([k for k in m if k.startswith("za")]) or 3
+        nb = len([k for k in m if k.startswith("zb")]) or 2
+        cases = [(np.array([m.get(f"za{i}", 5.0 + i) for i in range(na)], dtype=np.float32), np.array([m.get(f"zb{i}", 40.0 + i) for i in range(nb)], dtype=np.float32)),
+                 (np.array([3.0, 8.0, 12.0, 35.0], dtype=np.float32), np.array([33.0, 41.0, 50.0], dtype=np.float32))]
+        for za, zb in cases:
+            tha, thb = np.full(za.shape, 1.2, dtype=np.float32), np.full(zb.shape, 1.2, dtype=np.float32)
+            used.aerosol_model(za, tha)
+            r2 = np.array(used.aerosol_model(zb, thb))
+            r3 = np.array(fresh.aerosol_model(zb, thb))
+            if r2.shape != r3.shape or not np.array_equal(r2, r3):
+                return {"reproduced": True, "key": "CphotAng.aerosol_model: the result for a shower depends on the showers evaluated before on the same object",
+                        "detail": f"after a shower with segment altitudes {za.tolist()} km the transmission for altitudes {zb.tolist()} km differs from a fresh object's in {int((r2 != r3).sum()) if r2.shape == r3.shape else 'shape'} entries"}
+    return {"reproduced": False, "key": None, "detail": "real helper: used object == fresh object"}
 
 
 def replay(v):
@@ -413,6 +533,8 @@ def replay(v):
 
     job, ob = v.get("job", ""), v["obligation"]
     m = {k: x for k, x in (v.get("model") or {}).items() if x is not None}
+    if job.startswith("CphotAng.") and ": history" in job:
+        return _replay_kernel_history(job.split(".")[1].split(":")[0], m)
     if job.startswith("RegionGeomToO.generate_times"):
         from astropy.time import Time
 
@@ -519,18 +641,31 @@ def _real_stage(stage, big=False):
         n = 8
         if stage == "EAS.altDec":
             cols = {"beta": rng.uniform(0.02, 0.7, n), "tauBeta": np.full(n, 0.9999999), "tauLorentz": 10 ** rng.uniform(5, 8, n), "u": rng.uniform(0.05, 0.95, n)}
+            cols["u"][2] = 0.0  # a legal boundary draw
+            cols["u"][5] = 0.0
             return (lambda c: tuple(eas.altDec(c["beta"], c["tauBeta"], c["tauLorentz"], c["u"]))), cols
 
-        def kernel(beta, a, E, lat, lon, cloudf=None):  # per-event function of the event's own values
-            # (like the real CphotAng.__call__, which zips its five columns: a longer column is silently truncated)
-            n_ = min(len(beta), len(a), len(E), len(lat), len(lon))
-            beta, a, E, lat, lon = (np.asarray(x)[:n_] for x in (beta, a, E, lat, lon))
-            return 1e3 * np.sin(beta) * (1 + a) * E * (2 + np.cos(lat + lon)), 0.5 + 0.4 * np.cos(beta + a + lat) ** 2
+        def kernel(*cs, **kw):  # per-event function of the values in the event's own row, whatever columns are handed over
+            # (like the real CphotAng.__call__, which zips its columns: a longer column is silently truncated)
+            arrs = [np.asarray(x, dtype=float) for x in list(cs) + list(kw.values()) if isinstance(x, (np.ndarray, list, tuple))]
+            fns = [x for x in list(cs) + list(kw.values()) if callable(x)]
+            n_ = min(len(x) for x in arrs)
+            arrs = [x[:n_] for x in arrs]
+            rho, th = 1e3 * np.ones(n_), np.zeros(n_)
+            for k_, x in enumerate(arrs):
+                rho = rho * (2 + np.cos((k_ + 1) * x))
+                th = th + x
+            if fns and len(arrs) >= 5:  # the cloud model is evaluated at the event's own (latitude, longitude)
+                rho = rho * (2 + np.cos(np.array([float(fns[0](la, lo)) for la, lo in zip(arrs[3], arrs[4])])))
+            return rho, 0.5 + 0.4 * np.cos(th) ** 2
+
+        def cloud(lat, lon):  # a location-dependent cloud-top model
+            return 5.0 + 3.0 * np.sin(7 * np.asarray(lat)) * np.cos(3 * np.asarray(lon))
 
         eas.CphotAng = kernel
         cols = {"beta": rng.uniform(0.02, 0.7, n), "altDec": np.array([1.0, 25.0, 3.0, -0.5, 19.0, 7.0, 40.0, 0.2]), "E": 10 ** rng.uniform(-1, 2, n),
                 "lat": rng.uniform(-1, 1, n), "lon": rng.uniform(-3, 3, n)}
-        return (lambda c: tuple(eas(c["beta"], c["altDec"], c["E"], c["lat"], c["lon"], cloudf=None))), cols
+        return (lambda c: tuple(eas(c["beta"], c["altDec"], c["E"], c["lat"], c["lon"], cloudf=cloud))), cols
     if stage == "calculate_snr":
         from nuspacesim.simulation.eas_radio.radio_antenna import calculate_snr
 
